@@ -30,6 +30,9 @@ type ObsObj struct {
 	Signer int    `json:"signer,omitempty"`
 	Tree   []int  `json:"tree,omitempty"` // pairs (node, variant): byz.tree on the CBOR payload / json.member on the document
 	Setter bool   `json:"via_setters,omitempty"`
+	// Edit > 0: after the Evidence was decoded / signed, its owner updated the
+	// attached claims in place (so they no longer are what is under the signature)
+	Edit int `json:"edit,omitempty"`
 }
 
 type ObsCfg struct {
@@ -100,6 +103,9 @@ func (obsWorld) Gen(prop, tier string, idx int, r *Rng) *Trace {
 		o := ObsObj{Kind: kinds[r.Intn(len(kinds))], Claims: r.Intn(nClaims), Signer: r.Intn(nSig)}
 		if o.Kind == "built" {
 			o.Setter = r.Chance(1, 4)
+		}
+		if strings.HasPrefix(o.Kind, "ev-") && r.Chance(1, 3) {
+			o.Edit = r.Range(1, 5)
 		}
 		if o.Kind != "built" && o.Kind != "ev-signed" && r.Chance(1, 3) {
 			n := r.Range(1, 2)
@@ -383,12 +389,39 @@ func (o *ObsObj) materialise(cfg *ObsCfg) *obsLive {
 	if !ok || (l.claims == nil && l.ev == nil) {
 		return nil
 	}
+	if o.Edit > 0 && l.ev != nil && l.ev.Claims != nil {
+		func() {
+			defer func() { _ = recover() }()
+			c := l.ev.Claims
+			switch o.Edit % 5 {
+			case 0:
+				_ = c.SetClientID(424242)
+			case 1:
+				_ = c.SetVSI("edited after the fact")
+			case 2:
+				_ = c.SetNonce(bytes.Repeat([]byte{0x5a}, 48))
+			case 3:
+				_ = c.SetSecurityLifeCycle(0x2001)
+			case 4:
+				_ = c.SetImplID(bytes.Repeat([]byte{0xa5}, 32))
+			}
+		}()
+	}
 	return l
+}
+
+// cur is the claims-set an object exposes right now: for an Evidence, whatever
+// its Claims field holds at this moment (a read-side call must not swap it).
+func (l *obsLive) cur() psatoken.IClaims {
+	if l.ev != nil {
+		return l.ev.Claims
+	}
+	return l.claims
 }
 
 // readCall performs one read-side call and renders its result.
 func readCall(l *obsLive, call string, key int) string {
-	c := l.claims
+	c := l.cur()
 	return safely(func() string {
 		if strings.HasPrefix(call, "ev.") || call == "verify" {
 			if l.ev == nil {
@@ -513,8 +546,8 @@ func (obsWorld) Exec(prop string, t *Trace) *Result {
 		shape += fmt.Sprintf("%T", a.claims)
 		A[i] = a
 		first[i] = map[string]string{}
-		pa := observe(a.claims, a.ev, obsOrders[0], false)
-		pb := observe(b.claims, b.ev, obsOrders[1], true)
+		pa := observe(a.cur(), a.ev, obsOrders[0], false)
+		pb := observe(b.cur(), b.ev, obsOrders[1], true)
 		res.Evals++
 		if d := diffParts(pa, pb); d != "" {
 			res.violate("C18", "first-observation-order-dependent", "", -1, "two identically built objects (%s) observed in opposite orders disagree, so a read-side call changed what a later one sees: %s", o.Kind, d)
@@ -568,7 +601,7 @@ func (obsWorld) Exec(prop string, t *Trace) *Result {
 				continue
 			}
 			res.Evals++
-			p := observe(A[j].claims, A[j].ev, obsOrders[(step+j)%len(obsOrders)], (step+j)%2 == 1)
+			p := observe(A[j].cur(), A[j].ev, obsOrders[(step+j)%len(obsOrders)], (step+j)%2 == 1)
 			if d := diffParts(obs0[j], p); d != "" {
 				res.violate("C18", "observation-changed", "", step, "after %s, object %d (%s) is observably different: %s", what, j, cfg.Objs[j].Kind, d)
 			}
@@ -661,7 +694,7 @@ func (obsWorld) Exec(prop string, t *Trace) *Result {
 			}
 			reads++
 			// the component the call itself produces is observed last
-			p := observe(v.claims, v.ev, obsOrders[(i+1)%len(obsOrders)], i%2 == 0)
+			p := observe(v.cur(), v.ev, obsOrders[(i+1)%len(obsOrders)], i%2 == 0)
 			if d := diffParts(obs0[op.A], p); d != "" {
 				res.violate("C18", "first-call-changes-object", "", i, "%s as the very first call on a fresh object (%s) leaves it observably different from its twin: %s", op.S, cfg.Objs[op.A].Kind, d)
 			}
